@@ -22,6 +22,13 @@ class Contract:
         self.on_raise = _named(kw.pop("on_raise", []), "exc")  # obligations on every exceptional exit
         self.modifies = kw.pop("modifies", [])      # 'self.attr', 'FS', 'param.attr', 'calls'
         self.loops = kw.pop("loops", {})            # loop id -> dict(inv=[...], modifies=[...], ghost_pre=[...], ghost_post=[...], decreases)
+        # cut points of a large body: {'after:assign:<name>' | 'after:<loop id>': dict(inv=[clauses])}.  At a cut every clause is
+        # asserted on every path reaching it (VCs), then all paths continue as ONE state in which everything assigned
+        # since function entry is havocked and only the cut clauses (and the preconditions) are known.
+        self.cuts = kw.pop("cuts", {})
+        # ghost outputs: names of locals of the body whose final values the postcondition mentions; at call sites they
+        # are fresh (Skolem) symbols constrained only by the postcondition
+        self.ghost_out = kw.pop("ghost_out", {})
         self.ghost_entry = kw.pop("ghost_entry", [])  # ghost statements run at entry
         self.ghost_exit = kw.pop("ghost_exit", [])    # ghost statements run before normal return checks
         self.ghost_after = kw.pop("ghost_after", {})  # 'call:<name>#k' -> [ghost stmts] run after that call
